@@ -17,12 +17,16 @@ def check_C08(c):
     rot = {'e': 'eaz'[c.seed % 3], 'E': 'EZQ'[c.seed % 3], '0': '019'[c.seed % 3]}
     alpha = [rot.get(x, x) for x in alpha]
     jobs = []
-    n_ex = _q(c, 2, 3)
+    n_ex = _q(c, 3, 4)
     for s in gen.all_strings(alpha, n_ex):
-        for tr in (False, True):
-            jobs.append(('tr_lex', dict(text=s, triple=tr)))
+        jobs.append(('tr_lex', dict(text=s, triple=False)))
+        if len(s) < n_ex:
+            jobs.append(('tr_lex', dict(text=s, triple=True)))
+    # quotes and backslashes: every text up to length 6 / 7 over " \ a blank (terminated, unterminated, escaped, escaped escape)
+    for s in gen.all_strings(['"', '\\', 'a', ' '], _q(c, 6, 7), 2):
+        jobs.append(('tr_lex', dict(text=s, triple=False)))
     # sample of the next lengths
-    for ln, cnt in _q(c, [(3, 6000), (4, 3000), (5, 2000)], [(4, 150000), (5, 60000), (6, 30000)]):
+    for ln, cnt in _q(c, [(4, 4000), (5, 2500), (6, 1500)], [(5, 150000), (6, 60000), (7, 30000)]):
         for s in gen.sample_strings(c.rng, alpha, ln, cnt):
             jobs.append(('tr_lex', dict(text=s, triple=c.rng.random() < 0.3)))
     # long random lines, corpus, mutated corpus; both containers
@@ -86,6 +90,8 @@ def check_C07(c):
     for s in gen.all_strings(alpha, n_ex):
         jobs.append(('tr_parse', dict(text=s)))
         jobs.append(('tr_ptriples', dict(text=s)))
+    for s in gen.all_strings(['"', '\\', 'a', ' '], _q(c, 5, 6), 1):
+        jobs.append(('tr_parse', dict(text='(a :r ' + s + ')')))
     for ln, cnt in _q(c, [(4, 4000), (5, 3000), (6, 2000)], [(5, 150000), (6, 80000), (7, 40000)]):
         for s in gen.sample_strings(c.rng, alpha, ln, cnt):
             jobs.append(('tr_parse', dict(text=s, fn=c.rng.choice(['parse', 'iterparse']))))
@@ -240,6 +246,20 @@ def _variants(ts):
     return out
 
 
+def _mixed_variants(c, ts, n):
+    """The same list with the spacing of every comma and every conjunction sign chosen independently."""
+    out = []
+    for _ in range(n):
+        parts = []
+        for i, (s_, r, t) in enumerate(ts):
+            parts.append(f'{r[1:]}({s_}{c.rng.choice([",", ", ", " ,", " , "])}{t})')
+        text = parts[0]
+        for p_ in parts[1:]:
+            text += c.rng.choice(['^', ' ^', ' ^ ', ' ^\n', '^ ']) + p_
+        out.append(text)
+    return out
+
+
 def check_C19(c):
     c.mc('MC_Triples', _q(c, 'MC_Triples_q.cfg', 'MC_Triples_t.cfg'), workers=16, heap='8g')
     import penman
@@ -265,7 +285,8 @@ def check_C19(c):
     for ts in lists:
         for ind in (True, False):
             v = _variants([tuple(t) for t in ts]) if len(ts) <= 4 else []
-            jobs.append(('tr_triples', dict(ts=ts, indent=ind, variants=v if ind else v[:3])))
+            v = (v if ind else v[:3]) + (_mixed_variants(c, [tuple(t) for t in ts], 3) if len(ts) >= 2 else [])
+            jobs.append(('tr_triples', dict(ts=ts, indent=ind, variants=v)))
     traces = pmake(jobs)
     c.judge('J_Syntax', traces, 'triples', nontrivial=lambda t: len(t['ts']) >= 2 or any(x[2].startswith('"') for x in t['ts']))
     c.rule = ('triple lists of every decodable corpus graph and random lists (targets: symbols, numerals, quoted strings with '
